@@ -194,7 +194,11 @@ type ledgerObs struct {
 
 // projectLedger issues every query the property names on ledger l and maps the answers back to
 // abstract ids (shared by the live instance and reopened instances).
-func (s *ledgerSim) projectLedger(l *ledger.Ledger) ledgerObs {
+func (s *ledgerSim) projectLedger(l *ledger.Ledger) ledgerObs { return s.projectLedgerN(l, s.n) }
+
+// projectLedgerN projects with respect to the first n abstract blocks only (crash images are judged against the
+// state before the operation, whose numbering does not know the block being submitted, and the state after it).
+func (s *ledgerSim) projectLedgerN(l *ledger.Ledger, n int) ledgerObs {
 	o := ledgerObs{}
 	meta := l.GetMeta()
 	o.Tip = s.abs(meta.TipBlockid)
@@ -206,7 +210,7 @@ func (s *ledgerSim) projectLedger(l *ledger.Ledger) ledgerObs {
 		return blkObs{Ex: true, Trunk: b.InTrunk, Next: s.abs(b.NextHash), H: int(b.Height), Par: s.abs(b.PreHash)}
 	}
 	alive := map[int]bool{}
-	for a := 1; a <= s.n; a++ {
+	for a := 1; a <= n; a++ {
 		id := s.blocks[a].Blockid
 		if !l.ExistBlock(id) {
 			o.Blocks = append(o.Blocks, blkObs{})
@@ -217,7 +221,7 @@ func (s *ledgerSim) projectLedger(l *ledger.Ledger) ledgerObs {
 		o.Blocks = append(o.Blocks, conv(l.QueryBlock(id)))
 		o.HBlocks = append(o.HBlocks, conv(l.QueryBlockHeader(id)))
 	}
-	for h := 0; h < s.n; h++ {
+	for h := 0; h < n; h++ {
 		b, err := l.QueryBlockByHeight(int64(h))
 		if err != nil {
 			o.Byh = append(o.Byh, 0)
@@ -251,9 +255,9 @@ func (s *ledgerSim) projectLedger(l *ledger.Ledger) ledgerObs {
 		o.Tips = append(o.Tips, -1)
 	}
 	sort.Ints(o.Tips)
-	for a := 1; a <= s.n; a++ {
+	for a := 1; a <= n; a++ {
 		row := []pathObs{}
-		for b := 1; b <= s.n; b++ {
+		for b := 1; b <= n; b++ {
 			p := pathObs{U: []int{}, T: []int{}}
 			if alive[a] && alive[b] {
 				u, t, err := l.FindUndoAndTodoBlocks(s.blocks[a].Blockid, s.blocks[b].Blockid)
@@ -281,6 +285,7 @@ func ledgerReplay(args []string) error {
 	out := fs.String("out", "trace.ndjson", "ndjson trace to write")
 	ntx := fs.Int("ntx", 3, "number of abstract tx ids (NTx of the spec)")
 	reopen := fs.Bool("reopen", false, "also project a ledger reopened on a copy of the image after every step")
+	cutsOn := fs.Bool("cuts", false, "reopen a ledger on the image after every prefix of each operation's storage writes (crash points, C06)")
 	fs.Parse(args)
 	behs, err := fx.LoadBehaviours(*in)
 	if err != nil {
@@ -291,19 +296,46 @@ func ledgerReplay(args []string) error {
 		return err
 	}
 	defer tw.Close()
-	ops := 0
+	ops, ncuts := 0, 0
 	for k, beh := range behs {
 		s, err := newLedgerSim(fmt.Sprintf("L%d", k), *ntx)
 		if err != nil {
 			return err
 		}
 		tw.Emit(fx.Ev{"op": "reset", "tr": k})
+		base := fmt.Sprintf("L%dbase", k)
+		if *cutsOn {
+			fx.CloneTree(s.node.Root, fx.DataPrefix(base))
+			fx.StartLog()
+		}
 		for i, op := range beh {
+			nPre, wa := s.n, fx.LogLen()
 			res, err := s.step(op)
 			if err != nil {
 				return fmt.Errorf("behaviour %d step %d: %v", k, i, err)
 			}
+			var cutList []fx.Ev
+			if *cutsOn {
+				log := fx.LogSnapshot()
+				for j := 0; j <= len(log)-wa; j++ {
+					cname := fmt.Sprintf("L%dcut", k)
+					fx.CloneTree(fx.DataPrefix(base), fx.DataPrefix(cname))
+					fx.ApplyLog(log[:wa+j], s.node.Root, fx.DataPrefix(cname))
+					c := fx.Ev{"j": j}
+					if nd, err := fx.OpenLedgerOnly(cname); err != nil {
+						c["pre"], c["post"] = "open failed: "+err.Error(), "open failed"
+					} else {
+						c["pre"], c["post"] = s.projectLedgerN(nd.Ledger, nPre), s.projectLedgerN(nd.Ledger, s.n)
+					}
+					fx.DropTree(fx.DataPrefix(cname))
+					cutList = append(cutList, c)
+					ncuts++
+				}
+			}
 			ev := fx.Ev{"tr": k, "i": i, "res": res, "obs": s.projectLedger(s.node.Ledger)}
+			if cutList != nil {
+				ev["cuts"] = cutList
+			}
 			for kk, v := range op {
 				if kk != "res" {
 					ev[kk] = v
@@ -322,7 +354,11 @@ func ledgerReplay(args []string) error {
 			ops++
 		}
 		s.node.Drop()
+		if *cutsOn {
+			fx.StopLog()
+			fx.DropTree(fx.DataPrefix(base))
+		}
 	}
-	fmt.Printf("{\"behaviours\":%d,\"ops\":%d}\n", len(behs), ops)
+	fmt.Printf("{\"behaviours\":%d,\"ops\":%d,\"cuts\":%d}\n", len(behs), ops, ncuts)
 	return nil
 }
